@@ -914,6 +914,10 @@ func TestC13Magnets(t *testing.T) {
 			if rapid.IntRange(0, 3).Draw(t, "decoy") == 0 {
 				q = append(q, "xt=urn:sha1:ABCDEF", "xt=urn:btih:tooshort")
 			}
+			if rapid.IntRange(0, 3).Draw(t, "shortXt") == 0 {
+				// xt values shorter than, as long as, and a case variant of the prefix
+				q = append(q, "xt="+rapid.SampledFrom([]string{"", "u", "urn", "urn:btih", "urn:sha1", "urn:btih:", "URN:BTIH", "Urn:Btih:", "urn%3Abtih", "%75"}).Draw(t, "xtShort"))
+			}
 			q = append(q, "xt=urn:btih:"+hs)
 			for i, n := 0, rapid.IntRange(0, 3).Draw(t, "ntr"); i < n; i++ {
 				u := rapid.SampledFrom(trackerSchemes[:6]).Draw(t, "tr")
@@ -1040,6 +1044,7 @@ func TestC13MagnetJunk(t *testing.T) {
 			rapid.String(),
 			rapid.StringMatching(`magnet:\?(xt=urn:btih:[0-9a-fA-Z]{0,41}&?|tr=[a-z:/%.]{0,12}&?|dn=.{0,5}&?|[a-z]{1,3}=%[0-9a-z]{0,2}&?){0,5}`),
 			rapid.StringMatching(`(http|magnet|MAGNET|urn):[a-z?=&:%/]{0,30}`),
+			rapid.StringMatching(`magnet:\?(xt=(u|ur|urn|urn:|urn:b|urn:bt|urn:bti|urn:btih|urn:btih:|URN:BTIH:|urn:sha1)?[0-9a-f]{0,3}&?){1,3}`),
 		).Draw(t, "s")
 		var tt *tor.Torrent
 		var err error
@@ -1300,6 +1305,9 @@ func FuzzReadMagnet(f *testing.F) {
 	f.Add("magnet:?xt=urn:btih:" + b32[:16] + "%0A" + b32[16:])
 	f.Add("magnet:?dn=%zz&xt=urn:btih:" + hx)
 	f.Add("http://example.com/?xt=urn:btih:" + hx)
+	f.Add("magnet:?xt=")
+	f.Add("magnet:?xt=urn:btih")
+	f.Add("magnet:?xt=urn:sha1&xt=URN:BTIH:" + hx + "&xt=urn:btih:" + hx)
 	f.Fuzz(func(t *testing.T, s string) {
 		if len(s) > 64<<10 {
 			return
